@@ -1,7 +1,7 @@
 import sys,glob
 from prog import *
 from fmt import fmt
-d=sorted(glob.glob('/verif/.cache/facts/*/'))[-1]
+import os; d=sorted(glob.glob('/verif/.cache/facts/*/'), key=os.path.getmtime)[-1]
 P=Program(d)
 cn,e=sys.argv[1],sys.argv[2]
 pat=sys.argv[3] if len(sys.argv)>3 else ''
